@@ -407,6 +407,29 @@ func GenE2(prop string, seed uint64) *Program {
 			}
 		}
 	}
+	defer func() {
+		// feeds started by clients in mid-run: one statement of such a start sometimes fails (the call
+		// must then fail as a whole, or work completely)
+		switch scenario {
+		case "backfill-race", "ckpt", "term", "shutdown":
+		default:
+			return
+		}
+		var starts []int
+		for t, ops := range prog.Tasks {
+			for i, o := range ops {
+				if o.Kind == "StartFeed" {
+					starts = append(starts, t*100+i)
+				}
+			}
+		}
+		if len(starts) > 0 && r.Chance(25) {
+			prog.Faults = append(prog.Faults, FaultSpec{Kind: 6, AtOp: starts[r.Intn(len(starts))], Offset: r.Intn(30)})
+		}
+		if r.Chance(20) { // some commit attempt of the run fails with BUSY and is retried
+			prog.Faults = append(prog.Faults, FaultSpec{Kind: 5, AtOp: 1 + r.Intn(10)})
+		}
+	}()
 	switch scenario {
 	case "backfill-race":
 		g.setupDocs(prog, 60)
@@ -429,6 +452,9 @@ func GenE2(prop string, seed uint64) *Program {
 			prog.Tasks = append(prog.Tasks, ops)
 		}
 	case "ckpt":
+		// the clock stands still in these runs, so CAS values are consecutive integers: start them at an
+		// arbitrary offset (checkpoints are JSON numbers near 2^60)
+		prog.Setup = append(prog.Setup, Op{Kind: "HLCBurn", Dur: r.Intn(400)})
 		g.setupDocs(prog, 50)
 		w := weights{"Set": 6, "SetRaw": 2, "Add": 3, "WriteCas": 4, "Delete": 4, "Incr": 3, "Update": 3, "SetXattrs": 2, "WriteWithXattrs": 3, "Remove": 1, "WriteUpdateWithXattrs": 2}
 		for t := 0; t < 1+r.Intn(2); t++ {
@@ -657,6 +683,10 @@ func GenE2(prop string, seed uint64) *Program {
 				fs.Backfill, fs.Ckpt = "resume", "cp" // a checkpointing feed writes its checkpoint when it is stopped
 			}
 			prog.Feeds = append(prog.Feeds, fs)
+		}
+		if prog.NColl > 1 && r.Chance(25) {
+			// a bucket-level feed whose owner passes no done channel: it must go away with the store all the same
+			prog.Feeds = append(prog.Feeds, FeedSpec{ID: "nd", Handle: r.Intn(prog.NHandles), Bucket: true, NoDone: true})
 		}
 		w := weights{"Set": 6, "Add": 2, "Delete": 3, "Incr": 2, "WriteCas": 2, "GetRaw": 3, "Touch": 3, "Update": 2, "SetXattrs": 1, "WriteSubDoc": 1}
 		sleepFirst := r.Chance(60)
